@@ -116,7 +116,7 @@ def shard_grid(prop: str, tier: str, seed: int, ks: list[int]) -> dict[str, Any]
                 for shape in ("chain", "join"):
                     if not upd and (ntasks, pos) not in ((1, 0), (3, 1)):
                         continue
-                    for rs in (("bare", "from", "cause") if upd and shape == "chain" else ("bare",)):
+                    for rs in (("bare", "from", "cause", "from-transient", "from-stale") if upd and shape == "chain" else ("bare",)):
                         for prog in (PROGS if upd and rs == "bare" and shape == "chain" else ("int",)):
                             spec = make_spec(k, upd, pos, ntasks, shape, poll_k=2 if ntasks > 1 else 0, raise_style=rs, prog=prog)
                             run = Run(spec, max_steps=bound_for(k)).drain()
@@ -131,7 +131,7 @@ def shard_random(prop: str, tier: str, seed: int, n: int) -> dict[str, Any]:
     @settings(max_examples=n, database=None, deadline=None, derandomize=False, suppress_health_check=list(HealthCheck),
               phases=[Phase.generate], report_multiple_bugs=False)
     @given(st.sampled_from([-1, 0, 1, 2, 3, 4, 7, 9, 10, 11, 13]), st.booleans(), st.integers(1, 3), st.integers(0, 2),
-           st.sampled_from(["chain", "join", "single"]), st.integers(0, 2), schedule_desc(), st.sampled_from(["bare", "from", "cause"]),
+           st.sampled_from(["chain", "join", "single"]), st.integers(0, 2), schedule_desc(), st.sampled_from(["bare", "from", "cause", "from-transient", "from-stale"]),
            st.sampled_from(PROGS))
     def t(k, upd, ntasks, pos, shape, poll_k, sd, rs, prog):
         spec = make_spec(k, True, pos % ntasks, ntasks, shape, poll_k, raise_style=rs, prog=prog)
